@@ -94,7 +94,17 @@ def generate(rng, tier, cls):
                 cfgs.append([pad, rng.choice([96, 96, 1, 64, 4096]), 'sim',
                              None, 0])
 
+    if rng.chance(0.3):
+        # very long headers together with blocks beyond the usual buffer
+        # sizes
+        for _ in range(4):
+            cfgs.append([rng.choice([8100, 8192, 8193, 9000, 20000, 66000]),
+                         rng.choice([8192, 8193, 10000, 65536, 10 ** 6]),
+                         rng.choice(['sim', 'sim', 'bytesio']), None,
+                         rng.below(nsec)])
+
     return {'actors': [prod], 'schedule': [], 'faults': [], 'configs': cfgs,
+            'buffer_inputs': rng.chance(0.3),
             'stream_extras': gen.gen_stream_extras(rng)}
 
 
@@ -259,6 +269,46 @@ def execute(scn, L):
 
         if knob and kind == 'sim' and bs < B:
             out.probe('small_block_effective')
+
+    if scn.get('buffer_inputs') and not out.violations:
+        # the same bytes handed to the object-model loader as other
+        # bytes-like objects: how the data is held must not matter either
+        from dsim import domworld
+
+        try:
+            base = domworld.snap_tree(L.DiffX.from_bytes(bytes(intact)))
+        except Exception:
+            base = None
+
+        for typ in (bytearray, memoryview):
+            if base is None:
+                break
+
+            out.evals += 1
+
+            try:
+                got = domworld.snap_tree(L.DiffX.from_bytes(typ(intact)))
+            except TypeError as e:
+                if exc_summary(e, L)['func'] == 'from_bytes':
+                    # a loader that insists on bytes says so up front
+                    out.probe('from_bytes_refuses:' + typ.__name__)
+                    continue
+
+                out.violate('C17.config-fails', 'from_bytes(%s):TypeError'
+                            % typ.__name__, {'exc': exc_summary(e, L)})
+                break
+            except Exception as e:
+                out.violate('C17.config-fails', 'from_bytes(%s):%s' % (
+                    typ.__name__, type(e).__name__),
+                    {'exc': exc_summary(e, L)})
+                break
+
+            if got != base:
+                out.violate('C17.record', 'from_bytes(%s):%s' % (
+                    typ.__name__, domworld.first_diff(base, got)), None)
+                break
+
+            out.probe('from_bytes_bytes_like')
 
     out.case_weight = len(seen)
     out.nontrivial = bool(seen)
